@@ -96,6 +96,9 @@ package keystore
 //@   assert-at call Child#3 internal-keys-replayed-from-the-internal-branch-below-its-counter: arg0 == lastresult("Neuter#2") && arg1 < old(hdPath.InternalChildNum)
 //@   assert-at call Child#4 external-keys-replayed-from-the-external-branch-below-its-counter: arg0 == lastresult("Neuter#3") && arg1 < old(hdPath.ExternalChildNum)
 //@   loop * invariant counters-unchanged: hdPath.InternalChildNum == old(hdPath.InternalChildNum) && hdPath.ExternalChildNum == old(hdPath.ExternalChildNum)
+//@   assert-at store unlockDeriveInfo.branch replayed-key-recorded-under-the-branch-it-was-derived-on: value == derivationPath.Branch
+//@   assert-at store unlockDeriveInfo.index replayed-key-recorded-under-the-index-it-was-derived-at: value == derivationPath.Index && value == i
+//@   assert-at call putEncryptedPubKey replayed-key-stored-under-its-recorded-branch-and-index: arg1 == info.branch && arg2 == info.index
 
 //@ func (*KeystoreManagerForPoC).GetPublicKeyOrdinal
 //@   loop * invariant none-of-the-visited-keystores-has-it: forall k string :: visited(k) ==> (kmc.managedKeystores[k] == nil || kmc.managedKeystores[k].addrs == nil || !has(kmc.managedKeystores[k].addrs, lastresult("EncodeAddress")))
